@@ -3,6 +3,13 @@ import Toq.Spec.Games
 import Toq.Proofs.Games
 import Toq.Model.Npa
 import Toq.Proofs.Npa
+import Toq.Proofs.NpaPovm
+import Toq.Proofs.NpaSeesaw
+import Toq.Proofs.NpaMixed
+import Toq.Model.GamesExtra
+import Toq.Proofs.GamesExtra
+import Toq.Model.GamesSeesaw
+import Toq.Proofs.GamesSeesaw
 import Mathlib.Tactic.NormNum.Basic
 import Mathlib.Tactic.Positivity
 /-!
@@ -455,5 +462,363 @@ example : Nonempty (QStrategy 1 2 3 2 2) :=
      psi_norm := by simp [dotProduct] }⟩
 
 end Npa
+
+/-! ## General quantum strategies (POVMs) and the see-saw programs are inside every NPA level
+
+Lemmas: `Toq/Proofs/NpaPovm.lean` (Naimark dilation, explicit Halmos unitary), `Toq/Proofs/NpaSeesaw.lean`
+(spectral calculus of `τ`, Gisin–Hughston–Jozsa–Wootters realisation of an assemblage). -/
+section Povm
+open Toq.Npa Matrix
+open scoped ComplexOrder Kronecker
+
+/-- **Naimark's dilation theorem (finite dimension, explicit).**  Every POVM `E 0 … E (k-1)` on `ℂ^ι` (positive
+    semidefinite matrices summing to the identity, `k ≥ 1`) is the compression of a *projective* measurement: there are
+    Hermitian idempotents `P 0 … P (k-1)` on `ℂ^ι ⊕ (ℂ^k ⊗ ℂ^ι)`, pairwise orthogonal, summing to the identity, with
+    `Jᴴ P a J = E a` for the isometric inclusion `J` of the first summand. -/
+theorem naimark_dilation {ι : Type} [Fintype ι] [DecidableEq ι] (k : Nat) (hk : 0 < k) (E : Nat → Matrix ι ι ℂ)
+    (h : IsPovmN k E) :
+    ∃ P : Nat → Matrix (NkIdx ι k) (NkIdx ι k) ℂ,
+      (∀ a, (P a)ᴴ = P a) ∧ (∀ a, P a * P a = P a) ∧ (∀ a b, a ≠ b → P a * P b = 0) ∧ sumN k P = 1 ∧
+      (nkJ ι k)ᴴ * nkJ ι k = 1 ∧ ∀ a, a < k → (nkJ ι k)ᴴ * P a * nkJ ι k = E a :=
+  naimark k hk E h
+
+/-- **Every POVM strategy is a commuting projective strategy in a larger dimension with the same behaviour.**
+    For POVMs `E x a` on `ℂ^dA`, `F y b` on `ℂ^dB` and a unit vector `psi ∈ ℂ^dA ⊗ ℂ^dB` there are a dimension `D`
+    and a `QStrategy` on `ℂ^D` (projectors `P x a ⊗ 1`, `1 ⊗ Q y b` from the Naimark dilations, state
+    `(J_A ⊗ J_B) psi`) with `⟨psi'| A x a · B y b |psi'⟩ = ⟨psi| E x a ⊗ F y b |psi⟩` for all questions and answers
+    of the game. -/
+theorem povm_strategy_dilation (dA dB ao bo ai bi : Nat) (hao : 0 < ao) (hbo : 0 < bo)
+    (T : PovmStrategy dA dB ao bo ai bi) : ∃ (D : Nat) (S : QStrategy D ao bo ai bi), S.K = T.K :=
+  T.exists_dilation hao hbo
+
+/-- **The NPA constraint generator is sound for ALL finite-dimensional quantum strategies (POVMs, any dimensions,
+    every size, every level).**  For every tensor-product strategy with POVMs `E x a`, `F y b` and unit vector `psi`
+    there is a moment matrix `R` such that `(R, K)` with the strategy's behaviour
+    `K(a,b|x,y) = ⟨psi| E x a ⊗ F y b |psi⟩` satisfies **every** constraint the mirror of `npa_constraints` emits at
+    level `k`, with `R ⪰ 0`.  Hence the winning probability `Σ prob·pred·K` of every such strategy — in particular of
+    the POVMs the see-saw heuristic works with — is at most every NPA-level bound in the model. -/
+theorem npa_sound_povm (dA dB ao bo ai bi : Nat) (hao : 0 < ao) (hbo : 0 < bo) (hai : 0 < ai) (hbi : 0 < bi)
+    (k : LevelArg) (hwf : LevelWF k) (base : Nat) (conf : List (Nat × Nat)) (hk : levelSpec k = some (base, conf))
+    (T : PovmStrategy dA dB ao bo ai bi) :
+    let words := genWords base conf ao ai bo bi
+    ∃ R : Nat → Nat → ℂ,
+      (∀ c ∈ npaConstraints ao bo ai bi base conf,
+        Sat (Matrix.of fun i j : Fin words.length => R i j).PosSemidef ao bo R T.K c) ∧
+      (Matrix.of fun i j : Fin words.length => R i j).PosSemidef ∧
+      (∀ a b x y, 0 ≤ T.K a b x y) := by
+  intro words
+  obtain ⟨D, S, hS⟩ := T.exists_dilation hao hbo
+  have h := npa_sound_quantum D ao bo ai bi hai hbi k hwf base conf hk S
+  rw [hS] at h
+  exact ⟨S.R words, h⟩
+
+/-- a genuinely non-projective strategy exists for every alphabet (here sizes `(2, 3, 2, 2)`): Alice's POVM is
+    `(½, ½)` in dimension 1 -/
+example : Nonempty (PovmStrategy 1 1 2 3 2 2) :=
+  ⟨{ E := fun _ a => if a < 2 then Matrix.diagonal (fun _ => (1 / 2 : ℂ)) else 0
+     F := fun _ b => if b = 0 then 1 else 0
+     psi := fun _ => 1
+     E_povm := fun _ _ => ⟨fun a ha => by
+         simp only [ha, if_true]
+         exact Matrix.PosSemidef.diagonal (fun _ => by
+           show (0 : ℂ) ≤ 1 / 2
+           exact Complex.nonneg_iff.mpr ⟨by norm_num, by norm_num⟩), by
+         ext i j
+         simp [sumN, Matrix.diagonal, Matrix.one_apply, Subsingleton.elim i j]
+         norm_num⟩
+     F_povm := fun _ _ => ⟨fun b _ => by
+         show (if b = 0 then (1 : Matrix _ _ ℂ) else 0).PosSemidef
+         split <;> [exact Matrix.PosSemidef.one; exact Matrix.PosSemidef.zero],
+       sumN_ite_eq 3 0 (fun _ => (1 : Matrix (Fin 1) (Fin 1) ℂ)) (by norm_num) |> fun h => by
+         simpa [eq_comm] using h⟩
+     psi_norm := by simp [dotProduct] }⟩
+
+/-- **Every value a POVM strategy achieves is at most every NPA-level bound (model).**  Let `B` be any number that
+    bounds `Re` of the objective `Σ prob·pred·K` on the feasible set of the level-`k` relaxation (complex Hermitian
+    moment matrices; in particular `B` = its optimum).  Then the winning probability of every finite-dimensional
+    tensor-product POVM strategy is at most `B`. -/
+theorem povm_value_le_npa_bound (dA dB ao bo ai bi : Nat) (hao : 0 < ao) (hbo : 0 < bo) (hai : 0 < ai) (hbi : 0 < bi)
+    (k : LevelArg) (hwf : LevelWF k) (base : Nat) (conf : List (Nat × Nat)) (hk : levelSpec k = some (base, conf))
+    (prob : Nat → Nat → ℝ) (pred : Nat → Nat → Nat → Nat → ℝ) (B : ℝ)
+    (hB : ∀ (R : Nat → Nat → ℂ) (K : Nat → Nat → Nat → Nat → ℂ),
+      (∀ c ∈ npaConstraints ao bo ai bi base conf,
+        Sat (Matrix.of fun i j : Fin (genWords base conf ao ai bo bi).length => R i j).PosSemidef ao bo R K c) →
+      objRe ao bo ai bi prob pred K ≤ B)
+    (T : PovmStrategy dA dB ao bo ai bi) :
+    (sumN ai fun x => sumN bi fun y => sumN ao fun a => sumN bo fun b =>
+      prob x y * pred a b x y * (star T.psi ⬝ᵥ ((T.E x a ⊗ₖ T.F y b) *ᵥ T.psi)).re) ≤ B := by
+  obtain ⟨R, hR, _, _⟩ := npa_sound_povm dA dB ao bo ai bi hao hbo hai hbi k hwf base conf hk T
+  rw [← T.objRe_eq prob pred]
+  exact hB R T.K hR
+
+/-- **Feasible points of the see-saw programs are quantum strategies.**  Let `σ x a`, `τ` satisfy the constraints of
+    `__optimize_alice` (`σ x a ⪰ 0`, `Σ_a σ x a = τ` for every question, `tr τ = 1`, `τ ⪰ 0` — an assemblage; `τ` may be
+    singular) and `B y b` those of `__optimize_bob` (POVMs), in any dimension `d`.  Then there is a tensor-product POVM
+    strategy on `ℂ^d ⊗ ℂ^d` — state `vec √τ`, Alice `(√τ⁺ σ x a √τ⁺ + [a=0](1 − Π))ᵀ`, Bob `B y b` — whose behaviour
+    is exactly the coefficient `tr(B y bᴴ σ x a)` of `prob[x,y]·pred[a,b,x,y]` in the objective of both programs; and a
+    commuting projective strategy with that behaviour.  So every value the see-saw reports is *achieved*. -/
+theorem seesaw_point_is_quantum (d ao bo ai bi : Nat) (hao : 0 < ao) (hbo : 0 < bo) (P : SeesawPoint d ao bo ai bi) :
+    (∃ T : PovmStrategy d d ao bo ai bi, T.K = P.K) ∧ ∃ (D : Nat) (S : QStrategy D ao bo ai bi), S.K = P.K :=
+  ⟨⟨P.toPovm hao, P.toPovm_K hao⟩, P.exists_strategy hao hbo⟩
+
+/-- **The see-saw programs lie inside every NPA level.**  For every feasible point `(σ, τ, B)` of the two programs
+    of `quantum_value_lower_bound` (any dimension) there is a moment matrix `R ⪰ 0` such that `(R, K)` with
+    `K(a,b|x,y) = tr(B y bᴴ σ x a)` satisfies every constraint the mirror of `npa_constraints` emits at level `k`. -/
+theorem npa_sound_seesaw (d ao bo ai bi : Nat) (hao : 0 < ao) (hbo : 0 < bo) (hai : 0 < ai) (hbi : 0 < bi)
+    (k : LevelArg) (hwf : LevelWF k) (base : Nat) (conf : List (Nat × Nat)) (hk : levelSpec k = some (base, conf))
+    (P : SeesawPoint d ao bo ai bi) :
+    let words := genWords base conf ao ai bo bi
+    ∃ R : Nat → Nat → ℂ,
+      (∀ c ∈ npaConstraints ao bo ai bi base conf,
+        Sat (Matrix.of fun i j : Fin words.length => R i j).PosSemidef ao bo R P.K c) ∧
+      (Matrix.of fun i j : Fin words.length => R i j).PosSemidef ∧
+      (∀ a b x y, 0 ≤ P.K a b x y) := by
+  intro words
+  obtain ⟨D, S, hS⟩ := P.exists_strategy hao hbo
+  have h := npa_sound_quantum D ao bo ai bi hai hbi k hwf base conf hk S
+  rw [hS] at h
+  exact ⟨S.R words, h⟩
+
+/-- **Every quantum lower bound is at most every NPA-level bound (model).**  The number both see-saw programs
+    maximise, `real(Σ prob[x,y]·pred[a,b,x,y]·trace(bob_povms[y,b]ᴴ @ alice_povms[x,a]))`, evaluated at ANY feasible point
+    of the two programs (in particular at the point whose value `quantum_value_lower_bound` returns, a local optimum or
+    not), is at most every number `B` that bounds the objective on the feasible set of the level-`k` NPA relaxation. -/
+theorem seesaw_value_le_npa_bound (d ao bo ai bi : Nat) (hao : 0 < ao) (hbo : 0 < bo) (hai : 0 < ai) (hbi : 0 < bi)
+    (k : LevelArg) (hwf : LevelWF k) (base : Nat) (conf : List (Nat × Nat)) (hk : levelSpec k = some (base, conf))
+    (prob : Nat → Nat → ℝ) (pred : Nat → Nat → Nat → Nat → ℝ) (B : ℝ)
+    (hB : ∀ (R : Nat → Nat → ℂ) (K : Nat → Nat → Nat → Nat → ℂ),
+      (∀ c ∈ npaConstraints ao bo ai bi base conf,
+        Sat (Matrix.of fun i j : Fin (genWords base conf ao ai bo bi).length => R i j).PosSemidef ao bo R K c) →
+      objRe ao bo ai bi prob pred K ≤ B)
+    (P : SeesawPoint d ao bo ai bi) :
+    (sumN ai fun x => sumN bi fun y => sumN ao fun a => sumN bo fun b =>
+      prob x y * pred a b x y * ((P.B y b)ᴴ * P.sigma x a).trace.re) ≤ B := by
+  obtain ⟨R, hR, _, _⟩ := npa_sound_seesaw d ao bo ai bi hao hbo hai hbi k hwf base conf hk P
+  rw [← P.objRe_eq prob pred]
+  exact hB R P.K hR
+
+/-- **Every quantum value is at most the non-signalling value and at most 1.**  The real parts of the behaviour of a
+    commuting projective strategy — hence, by the dilation theorems, of every POVM strategy and every see-saw point —
+    form a non-signalling behaviour in the sense of `NsFeasible` (the feasible set of `nonsignaling_value`), so for a
+    probability distribution `prob` and a predicate with entries in `[0, 1]` the winning probability lies in `[0, 1]`. -/
+theorem quantum_le_ns_le_one (dA dB ao bo ai bi : Nat) (hao : 0 < ao) (hbo : 0 < bo)
+    (T : PovmStrategy dA dB ao bo ai bi) (prob : Nat → Nat → ℝ) (pred : Nat → Nat → Nat → Nat → ℝ)
+    (hp0 : ∀ x y, x < ai → y < bi → 0 ≤ prob x y)
+    (hp1 : sumN ai (fun x => sumN bi (fun y => prob x y)) = 1)
+    (hv : ∀ a b x y, a < ao → b < bo → x < ai → y < bi → 0 ≤ pred a b x y ∧ pred a b x y ≤ 1) :
+    NsFeasible ao bo ai bi (fun a b x y => (T.K a b x y).re) ∧
+      0 ≤ objRe ao bo ai bi prob pred T.K ∧ objRe ao bo ai bi prob pred T.K ≤ 1 := by
+  obtain ⟨D, S, hS⟩ := T.exists_dilation hao hbo
+  have hns : NsFeasible ao bo ai bi (fun a b x y => (T.K a b x y).re) := by
+    rw [← hS]; exact S.nsFeasible_re
+  rw [objRe_eq_objG]
+  exact ⟨hns, ns_objective_nonneg ao bo ai bi prob pred _ hp0 hv hns,
+    ns_objective_le_one ao bo ai bi prob pred _ hp0 hp1 hv hns⟩
+
+/-- the structure `SeesawPoint` is inhabited with a SINGULAR `τ` (dimension 2, `τ = diag(1, 0)`, sizes `(2, 3, 2, 2)`):
+    the theorems above do not assume an invertible reduced state -/
+example : Nonempty (SeesawPoint 2 2 3 2 2) :=
+  ⟨{ sigma := fun _ a => if a = 0 then Matrix.diagonal (fun i => if i = 0 then 1 else 0) else 0
+     tau := Matrix.diagonal (fun i => if i = 0 then 1 else 0)
+     B := fun _ b => if b = 0 then 1 else 0
+     sigma_psd := fun _ a _ _ => by
+       split
+       · exact Matrix.PosSemidef.diagonal (fun i => by
+           show (0 : ℂ) ≤ if i = 0 then 1 else 0
+           split <;> simp)
+       · exact Matrix.PosSemidef.zero
+     sigma_sum := fun _ _ => by
+       have := sumN_ite_eq 2 0 (fun _ => (Matrix.diagonal (fun i : Fin 2 => if i = 0 then (1 : ℂ) else 0))) (by norm_num)
+       simpa [eq_comm] using this
+     tau_tr := by simp [Matrix.trace]
+     tau_psd := Matrix.PosSemidef.diagonal (fun i => by
+       show (0 : ℂ) ≤ if i = 0 then 1 else 0
+       split <;> simp)
+     B_povm := fun _ _ => ⟨fun b _ => by
+         show (if b = 0 then (1 : Matrix _ _ ℂ) else 0).PosSemidef
+         split <;> [exact Matrix.PosSemidef.one; exact Matrix.PosSemidef.zero], by
+       have := sumN_ite_eq 3 0 (fun _ => (1 : Matrix (Fin 2) (Fin 2) ℂ)) (by norm_num)
+       simpa [eq_comm] using this⟩ }⟩
+
+/-- **Mixed states: every finite-dimensional quantum strategy is inside every NPA level.**  For a density matrix `ρ`
+    on `ℂ^dA ⊗ ℂ^dB` (positive semidefinite, trace 1) and POVMs `E x a`, `F y b`, the behaviour
+    `K(a,b|x,y) = tr((E x a ⊗ F y b) ρ)` — Alice's measurements prepare the assemblage `σ x a = tr_A[(E x a ⊗ 1) ρ]` on
+    Bob's side, a feasible point of the see-saw programs — comes with a moment matrix `R ⪰ 0` such that `(R, K)` satisfies
+    every constraint of the mirror of `npa_constraints` at level `k`; and the winning probability `Σ prob·pred·K` is at
+    most every number `B` that bounds the objective on the feasible set of that level. -/
+theorem npa_sound_mixed (dA dB ao bo ai bi : Nat) (hao : 0 < ao) (hbo : 0 < bo) (hai : 0 < ai) (hbi : 0 < bi)
+    (k : LevelArg) (hwf : LevelWF k) (base : Nat) (conf : List (Nat × Nat)) (hk : levelSpec k = some (base, conf))
+    (T : MixedStrategy dA dB ao bo ai bi) :
+    (∃ R : Nat → Nat → ℂ,
+      (∀ c ∈ npaConstraints ao bo ai bi base conf,
+        Sat (Matrix.of fun i j : Fin (genWords base conf ao ai bo bi).length => R i j).PosSemidef ao bo R T.K c) ∧
+      (Matrix.of fun i j : Fin (genWords base conf ao ai bo bi).length => R i j).PosSemidef ∧
+      (∀ a b x y, 0 ≤ T.K a b x y)) ∧
+    ∀ (prob : Nat → Nat → ℝ) (pred : Nat → Nat → Nat → Nat → ℝ) (B : ℝ),
+      (∀ (R : Nat → Nat → ℂ) (K : Nat → Nat → Nat → Nat → ℂ),
+        (∀ c ∈ npaConstraints ao bo ai bi base conf,
+          Sat (Matrix.of fun i j : Fin (genWords base conf ao ai bo bi).length => R i j).PosSemidef ao bo R K c) →
+        objRe ao bo ai bi prob pred K ≤ B) →
+      (sumN ai fun x => sumN bi fun y => sumN ao fun a => sumN bo fun b =>
+        prob x y * pred a b x y * ((T.E x a ⊗ₖ T.F y b) * T.rho).trace.re) ≤ B := by
+  obtain ⟨D, S, hS⟩ := T.exists_strategy hao hbo
+  have h := npa_sound_quantum D ao bo ai bi hai hbi k hwf base conf hk S
+  rw [hS] at h
+  refine ⟨⟨S.R _, h⟩, fun prob pred B hB => ?_⟩
+  rw [← T.objRe_eq prob pred]
+  exact hB (S.R _) T.K h.1
+
+end Povm
+
+/-! ## `classical_value` with its multiprocessing branch, product games in total form, the BCS distribution
+
+Model: `Toq/Model/GamesExtra.lean`, lemmas: `Toq/Proofs/GamesExtra.lean`. -/
+section Extra
+
+/-- **`process_iteration` enumerates every strategy exactly once**: decoding the counter `i < b ^ n` into its `n`
+    base-`b` digits (`divmod` loop, most significant digit first) is a bijection from `{0, …, b^n − 1}` onto the answer
+    functions `Fin n → Fin b` of the enumerated player, for every alphabet size `b ≥ 1` and number of questions `n`. -/
+theorem strategy_enumeration_bijective (b n : Nat) (hb : 0 < b) : Function.Bijective (decStrategy b n hb) :=
+  decStrategy_bijective b n hb
+
+/-- **the multiprocessing branch computes what the loop computes**: `max(pool.starmap(process_iteration, [(i, …) for i
+    in range(N)]))` equals the running maximum of the single-core loop, for every number of iterations `N` (both are
+    `-inf`/error only for `N = 0`). -/
+theorem pool_branch_eq_loop (N nbo nbi : Nat) (t : Pred) (nao nai : Nat) :
+    classicalValuePool N nbo nbi t nao nai = classicalValueLoop N nbo nbi t nao nai :=
+  classicalValuePool_eq_loop N nbo nbi t nao nai
+
+/-- **`classical_value` as written — with the branch `if num_iterations > 1000: pool else: loop` — is the classical
+    value**, for all numbers of answers (≥ 1) and questions, every distribution and predicate: the maximum winning
+    probability over all pairs of deterministic answer functions. -/
+theorem classicalValueCode_eq_maxDet (ao bo ai bi : Nat) [NeZero ao] [NeZero bo] (prob : Prob) (pred : Pred) :
+    classicalValueCode ao bo ai bi prob pred = some (maxDetValue ao bo ai bi prob pred) :=
+  Toq.Games.classicalValueCode_eq_maxDet ao bo ai bi prob pred
+
+/-- both branches are reachable: 1024 strategies go through the pool, 512 through the loop -/
+example : 2 ^ 10 > 1000 ∧ ¬ 2 ^ 9 > 1000 := by decide
+
+/-- **Product game, predicate, EVERY entry**: for `r ≥ 1` repetitions and all indices `a < ao^r`, `b < bo^r`,
+    `x < ai^r`, `y < bi^r` of the constructed tensor, the entry is the product over the rounds `k < r` of the base
+    predicate at the `k`-th base-`ao`/`bo`/`ai`/`bi` digits (most significant first) of the indices: the constructed
+    game is the `r`-fold product game in toqito's tensor layout. -/
+theorem productGame_pred_total (ao bo ai bi r : Nat) (hr : 0 < r) (pred : Pred) (a b x y : Nat)
+    (ha : a < ao ^ r) (hb : b < bo ^ r) (hx : x < ai ^ r) (hy : y < bi ^ r) :
+    productPred ao bo ai bi r pred a b x y
+      = prodFn r (fun k => pred (dec (fun _ => ao) r a k) (dec (fun _ => bo) r b k)
+          (dec (fun _ => ai) r x k) (dec (fun _ => bi) r y k)) :=
+  productPred_total ao bo ai bi r hr pred a b x y ha hb hx hy
+
+/-- **Product game, distribution, EVERY entry** -/
+theorem productGame_prob_total (ai bi r : Nat) (hr : 0 < r) (prob : Prob) (x y : Nat)
+    (hx : x < ai ^ r) (hy : y < bi ^ r) :
+    productProb ai bi r prob x y = prodFn r (fun k => prob (dec (fun _ => ai) r x k) (dec (fun _ => bi) r y k)) :=
+  productProb_total ai bi r hr prob x y hx hy
+
+/-- **The product game is a game**: if `prob` is a probability distribution and `pred` has entries in `[0, 1]`, the
+    same holds for the tensors the `reps` constructor builds (on the product alphabets). -/
+theorem productGame_wellformed (ao bo ai bi r : Nat) (hr : 0 < r) (prob : Prob) (pred : Pred)
+    (hp : IsDistribution ai bi prob) (hv : PredIn01 ao bo ai bi pred) :
+    IsDistribution (ai ^ r) (bi ^ r) (productProb ai bi r prob) ∧
+      PredIn01 (ao ^ r) (bo ^ r) (ai ^ r) (bi ^ r) (productPred ao bo ai bi r pred) :=
+  ⟨productProb_isDistribution ai bi r hr prob hp, productPred_in01 ao bo ai bi r hr pred hv⟩
+
+/-- **Playing the rounds independently multiplies the winning probabilities**: the deterministic strategy of the
+    `r`-fold game that answers round `k` with the base strategies `(f k, g k)` wins with probability
+    `Π_k detValue (f k) (g k)`; consequently the classical value of the `r`-fold game is at least the `r`-th power of
+    the classical value of the base game. -/
+theorem productGame_strategy_value (ao bo ai bi r : Nat) [NeZero ao] [NeZero bo] (hr : 0 < r) (prob : Prob) (pred : Pred) :
+    (∀ (f : Nat → Fin ai → Fin ao) (g : Nat → Fin bi → Fin bo),
+      detValue (ao ^ r) (bo ^ r) (ai ^ r) (bi ^ r) (productProb ai bi r prob) (productPred ao bo ai bi r pred)
+          (productStrategyFin ai ao r f) (productStrategyFin bi bo r g)
+        = prodFn r (fun k => detValue ao bo ai bi prob pred (f k) (g k))) ∧
+    (maxDetValue ao bo ai bi prob pred) ^ r
+      ≤ maxDetValue (ao ^ r) (bo ^ r) (ai ^ r) (bi ^ r) (productProb ai bi r prob) (productPred ao bo ai bi r pred) :=
+  ⟨fun f g => detValue_product ao bo ai bi r hr prob pred f g, (maxDetValue_product_ge ao bo ai bi r hr prob pred).2⟩
+
+/-- **BCS game, question distribution**: with `m ≥ 1` constraints, the referee picks a constraint uniformly and then
+    one of the variables it depends on uniformly: `prob_mat[j, i] = 1 / (m · #dep_j)` if constraint `j` depends on
+    variable `i` and `0` otherwise (`#dep_j > 0` then); "depends" means that flipping variable `i` changes the value
+    of the constraint for some assignment; and if every constraint depends on some variable this is a probability
+    distribution. -/
+theorem bcs_prob_spec (m n : Nat) (c : Nat → Nat → Int) (hm : 0 < m) :
+    (∀ j i, i < n → bcsProb m n c j i
+        = (if bcsDepends n c j i = true then 1 / ((m : ℚ) * (bcsDepCount n c j : ℚ)) else 0) ∧
+      (bcsDepends n c j i = true → 0 < (m : ℚ) * (bcsDepCount n c j : ℚ))) ∧
+    (∀ j i, i < n → (bcsDepends n c j i = true ↔
+      ∃ s : Nat → Nat, (∀ k, k < n → s k < 2) ∧
+        c j (enc (fun _ => 2) (flipAt s i) n) ≠ c j (enc (fun _ => 2) s n))) ∧
+    ((∀ j, j < m → ∃ i, i < n ∧ bcsDepends n c j i = true) → IsDistribution m n (bcsProb m n c)) :=
+  ⟨fun j i hi => bcsProb_eq m n c j i hm hi, fun j i hi => bcsDepends_iff n c j i hi,
+    fun hdep => bcsProb_isDistribution m n c hm hdep⟩
+
+end Extra
+
+/-! ## The see-saw programs of `quantum_value_lower_bound` as data, and its outer loop
+
+Model: `Toq/Model/GamesSeesaw.lean` (exact arithmetic over `ℚ[i]`), lemmas: `Toq/Proofs/GamesSeesaw.lean`. -/
+section SeesawPrograms
+open Toq.Seesaw
+
+/-- **Both see-saw builders maximise the same bilinear form.**  The objective expression of `__optimize_alice`
+    (`bob_povms[y,b].conj().T @ alice_povms[x,a]`, Bob's operators given as arrays in the first round and as solved cvxpy
+    variables afterwards) and that of `__optimize_bob` (`bob_povms[y,b].H @ alice_povms[x,a].value`), accumulated in the
+    code's loop order with `cvxpy.real` at the end, are the same function of the operators, namely
+    `Σ_x Σ_y Σ_a Σ_b prob[x,y]·pred[a,b,x,y]·Re tr(B[y,b]ᴴ A[x,a])` — every term carries the predicate as a WEIGHT. -/
+theorem seesaw_objectives_agree (d ao bo ai bi : Nat) (prob : Prob) (pred : Pred) (A B : Fam) :
+    aliceObjective d ao bo ai bi prob pred A (fun y b => BobEntry.arr (B y b)) = bobObjective d ao bo ai bi prob pred A B ∧
+    aliceObjective d ao bo ai bi prob pred A (fun y b => BobEntry.var (B y b)) = bobObjective d ao bo ai bi prob pred A B ∧
+    bobObjective d ao bo ai bi prob pred A B = seesawWin d ao bo ai bi prob pred A B :=
+  ⟨aliceObjective_arr_eq_bobObjective d ao bo ai bi prob pred A B,
+    aliceObjective_var_eq_bobObjective d ao bo ai bi prob pred A B,
+    bobObjective_eq_seesawWin d ao bo ai bi prob pred A B⟩
+
+/-- **Every deterministic strategy is a feasible point of both see-saw programs with its classical winning
+    probability.**  For answer functions `f`, `g` into the alphabets and any `τ` with `tr τ = 1`: the assemblage
+    `A[x,a] = [a = f x]·τ` satisfies every equality constraint `__optimize_alice` emits (`Σ_a A[x,a] = τ`, `tr τ = 1`), the
+    measurements `B[y,b] = [b = g y]·1` every equality constraint of `__optimize_bob` (`Σ_b B[y,b] = 1`), and both
+    objectives evaluate to `Σ_{x,y} prob x y · pred (f x) (g y) x y`. -/
+theorem seesaw_contains_det (d ao bo ai bi : Nat) (prob : Prob) (pred : Pred) (f g : Nat → Nat) (tau : CMat)
+    (hf : ∀ x, x < ai → f x < ao) (hg : ∀ y, y < bi → g y < bo) (htr : trace d tau = 1) :
+    (∀ c ∈ aliceConstraints ao ai, c.holdsEq d ao bo (detAlice f tau) (detBob g) tau = true) ∧
+    (∀ c ∈ bobConstraints bo bi, c.holdsEq d ao bo (detAlice f tau) (detBob g) tau = true) ∧
+    bobObjective d ao bo ai bi prob pred (detAlice f tau) (detBob g) = detValueN ai bi prob pred f g ∧
+    aliceObjective d ao bo ai bi prob pred (detAlice f tau) (fun y b => BobEntry.arr (detBob g y b))
+      = detValueN ai bi prob pred f g :=
+  ⟨det_alice_feasible_eqs d ao bo ai f tau (detBob g) hf htr, det_bob_feasible_eqs d ao bo bi g (detAlice f tau) tau hg,
+    bobObjective_det d ao bo ai bi prob pred f g tau hf hg htr, aliceObjective_det d ao bo ai bi prob pred f g tau hf hg htr⟩
+
+/-- the hypotheses of `seesaw_contains_det` are satisfiable, and the programs have the sizes the code emits:
+    `ai·(ao+1) + 2` constraints for Alice (`ai·ao + 1` of them `>> 0`), `bi·(bo+1)` for Bob -/
+example : (aliceConstraints 2 3).length = 3 * (2 + 1) + 2 ∧ (bobConstraints 3 2).length = 2 * (3 + 1) :=
+  ⟨aliceConstraints_length 2 3, bobConstraints_length 3 2⟩
+
+/-- **What `quantum_value_lower_bound` returns.**  Given the values `vals i` returned by the successive solves of
+    `__optimize_bob` in outer iteration `i` (inputs: the solver and the random start POVMs are not modelled), the loop
+    `best_lower_bound = -inf; for _ in range(iters): it_diff = 1; prev_win = -1; best = -inf; while it_diff > tol: …`
+    returns the **maximum of all values it consumed** (`none` = `-inf` iff it consumed none) — in particular one of them,
+    i.e. the value of the programs at an actual feasible point ("an achieved value") — and it performs exactly two solves
+    per consumed value. -/
+theorem seesaw_loop_returns_max (tol : Rat) (vals : Nat → List Rat) (iters : Nat) :
+    IsListMax (consumed tol vals iters) (seesawLoop tol vals iters).value ∧
+    (seesawLoop tol vals iters).solves = 2 * (consumed tol vals iters).length :=
+  ⟨seesawLoop_value_isMax tol vals iters, solves_eq tol vals iters⟩
+
+/-- **When the inner loop stops.**  For `tol < 1` every inner loop runs at least one round (if the solver delivers a
+    value), and if it terminates it does so at the first round whose increase `lower_bound − prev_win` (starting from
+    `prev_win = −1`) is at most `tol`: all earlier increases exceed `tol`.  For `tol ≥ 1` no round runs at all and the
+    function returns `-inf` without solving (documented corner outside the property's quantifier). -/
+theorem seesaw_loop_stop_rule (tol : Rat) :
+    (tol < 1 → ∀ vals : List Rat, (vals ≠ [] → 1 ≤ (innerLoop tol vals).steps) ∧
+      ((innerLoop tol vals).terminated = true →
+        (innerLoop tol vals).steps = lead tol (-1) vals + 1 ∧
+        (∀ δ, (incrs (-1) vals)[lead tol (-1) vals]? = some δ → δ ≤ tol) ∧
+        (∀ k δ, k < lead tol (-1) vals → (incrs (-1) vals)[k]? = some δ → δ > tol))) ∧
+    (1 ≤ tol → ∀ (vals : Nat → List Rat) (n : Nat),
+      (seesawLoop tol vals n).value = none ∧ (seesawLoop tol vals n).solves = 0) :=
+  ⟨fun htol vals => ⟨fun hv => innerLoop_steps_pos tol vals htol hv, fun ht => innerLoop_stop_rule tol vals htol ht⟩,
+    fun htol vals n => seesawLoop_of_one_le_tol tol vals htol n⟩
+
+end SeesawPrograms
 
 end Toq.C07
